@@ -637,6 +637,7 @@ class C04(TwoPass):
     def oracle(self, cid, cmds, tr):
         vs = []
         hw = {}        # queue -> first position that may be assigned next (acknowledged history)
+        maybe_deleted = set()
         lastpos = {}
         ci = next((i for i, c in enumerate(cmds) if c.startswith("crash ")), None)
         cut = int(cmds[ci].split()[1]) if ci is not None else None
@@ -647,6 +648,8 @@ class C04(TwoPass):
             toks = split_cmd(cmd)
             out = outcome_of(tr[i]) or ""
             if ci is not None and j is not None and i == j and i < ci:
+                if toks[0] == "delete":
+                    maybe_deleted.add(toks[1])      # an in-flight delete may or may not have taken effect
                 continue       # the in-flight call was never acknowledged
             if toks[0] == "create" and " ok" in out:
                 hw[toks[1]] = 0
@@ -669,14 +672,21 @@ class C04(TwoPass):
                     hw[toks[1]] = last + 1
             elif toks[0] == "open" and out == "out open ok":
                 o = obs_of(tr[i])
-                for qn, h in hw.items():
+                gone_now = []
+                for qn, h in list(hw.items()):
                     q = o.get(show_name(name_bytes(qn)))
+                    if q is None and qn in maybe_deleted:
+                        gone_now.append(qn)
+                        continue
                     if q is None:
                         vs.append({"msg": "cmd %d (open): queue %s, created and never deleted, is gone: its positions (high-water mark %d) would be handed out again" % (i, qn, h), "shape": "position-regress"})
                         return vs
                     if q is not None and q["next"] < h:
                         vs.append({"msg": "cmd %d (open): next position of %s is %d, below the high-water mark %d of its incarnation" % (i, qn, q["next"], h), "shape": "position-regress"})
                         return vs
+                for qn in gone_now:          # the in-flight delete had reached the log: the incarnation is over
+                    hw.pop(qn, None)
+                    maybe_deleted.discard(qn)
         return vs
 
 
